@@ -95,6 +95,12 @@ func goEnv() []string {
 	return env
 }
 
+// droppedHarness: harness files (by "<pkgDir>|<harness>" then file name) left out
+// because they do not compile against the tree under check (e.g. a step lemma
+// that builds its pre-state from struct fields the tree no longer has); the
+// jobs whose entry lives in such a file are inconclusive, the others still run.
+var droppedHarness = map[string]map[string]string{}
+
 func harnessOverlay(pkgDir, harness string, withTest bool) (map[string][]byte, string, error) {
 	hdir := filepath.Join(verifDir, "harness", harness)
 	ents, err := os.ReadDir(hdir)
@@ -105,6 +111,9 @@ func harnessOverlay(pkgDir, harness string, withTest bool) (map[string][]byte, s
 	pkgName := ""
 	for _, en := range ents {
 		if !strings.HasSuffix(en.Name(), ".go") {
+			continue
+		}
+		if _, dropped := droppedHarness[pkgDir+"|"+harness][en.Name()]; dropped {
 			continue
 		}
 		b, err := os.ReadFile(filepath.Join(hdir, en.Name()))
@@ -147,17 +156,52 @@ func harnessOverlay(pkgDir, harness string, withTest bool) (map[string][]byte, s
 
 func loadPkg(pkgDir, harness string) (*LoadedPkg, error) {
 	start := time.Now()
-	ov, _, err := harnessOverlay(pkgDir, harness, false)
-	if err != nil {
-		return nil, err
-	}
-	cfg := &packages.Config{Mode: packages.LoadAllSyntax, Dir: repoDir, Env: goEnv(), Overlay: ov}
-	pkgs, err := packages.Load(cfg, "./"+pkgDir)
-	if err != nil {
-		return nil, err
-	}
-	if packages.PrintErrors(pkgs) > 0 {
-		return nil, fmt.Errorf("package %s has errors", pkgDir)
+	var pkgs []*packages.Package
+	for attempt := 0; ; attempt++ {
+		ov, _, err := harnessOverlay(pkgDir, harness, false)
+		if err != nil {
+			return nil, err
+		}
+		cfg := &packages.Config{Mode: packages.LoadAllSyntax, Dir: repoDir, Env: goEnv(), Overlay: ov}
+		pkgs, err = packages.Load(cfg, "./"+pkgDir)
+		if err != nil {
+			return nil, err
+		}
+		// errors confined to harness files other than the runtime: leave those files out and retry
+		bad := map[string]string{}
+		onlyHarness, nerr := true, 0
+		packages.Visit(pkgs, nil, func(p *packages.Package) {
+			for _, e := range p.Errors {
+				nerr++
+				file := e.Pos
+				if i := strings.Index(file, ":"); i >= 0 {
+					file = file[:i]
+				}
+				base := filepath.Base(file)
+				if _, isOv := ov[file]; isOv && strings.HasPrefix(base, "zz_") && base != "zz_rt.go" && filepath.Dir(file) == filepath.Join(repoDir, pkgDir) {
+					if _, ok := bad[base]; !ok {
+						bad[base] = e.Msg
+					}
+				} else {
+					onlyHarness = false
+				}
+			}
+		})
+		if nerr == 0 {
+			break
+		}
+		if !onlyHarness || len(bad) == 0 || attempt >= 3 {
+			packages.PrintErrors(pkgs)
+			return nil, fmt.Errorf("package %s has errors", pkgDir)
+		}
+		key := pkgDir + "|" + harness
+		if droppedHarness[key] == nil {
+			droppedHarness[key] = map[string]string{}
+		}
+		for f, msg := range bad {
+			droppedHarness[key][f] = msg
+			fmt.Printf("  harness file %s does not compile against this tree (%s): left out, its jobs are inconclusive\n", f, msg)
+		}
 	}
 	prog, spkgs := ssautil.AllPackages(pkgs, ssa.InstantiateGenerics)
 	prog.Build()
@@ -252,6 +296,9 @@ func runInstance(lp *LoadedPkg, js *JobSpec, ps map[string]int64, pools map[stri
 	entry := lp.pkg.Func(js.Entry)
 	if entry == nil {
 		res.Err = "entry function not found: " + js.Entry
+		for f, msg := range droppedHarness[js.Pkg+"|"+js.Harness] {
+			res.Err += fmt.Sprintf(" (harness file %s does not compile against this tree: %s)", f, msg)
+		}
 		return
 	}
 	start := time.Now()
